@@ -441,7 +441,9 @@ func spellSitesMode(toks []stok, mode int) []site {
 		case kQOpen:
 			if i+2 < len(toks) && toks[i+2].kind == kQClose {
 				c := toks[i+1].text
-				if !strings.ContainsAny(c, "'\"\\") && !strings.Contains(c, "#{") {
+				// (a backslash inside is fine as long as it does not stand before the closing quote: both quote styles
+				// treat it alike)
+				if !strings.ContainsAny(c, "'\"") && !strings.HasSuffix(c, "\\") && !strings.Contains(c, "#{") {
 					other := "'"
 					if t.text == "'" {
 						other = "\""
